@@ -36,6 +36,8 @@ def one(dest, tiers):
     sid = os.path.basename(dest)
     pid = sid.split("-")[0]
     meta = json.load(open(os.path.join(dest, "meta.json")))
+    if meta.get("superseded"):
+        return sid, {"verdict": "SUPERSEDED", "note": meta["superseded"][:200]}
     d = f"/var/tmp/seedmatrix/{sid}"
     shutil.rmtree(d, ignore_errors=True)
     os.makedirs(d)
@@ -97,7 +99,7 @@ def main():
         r = status[sid]
         lines.append(f"| {sid} | {r['verdict']} | {r.get('caught_by', '')} | {r.get('mechanism', '').replace('mechanism=', '')[:100]} |")
     open(os.path.join(ROOT, "seeded", "STATUS.md"), "w").write("\n".join(lines) + "\n")
-    missed = [s for s in status if status[s]["verdict"] != "CAUGHT"]
+    missed = [s for s in status if status[s]["verdict"] not in ("CAUGHT", "SUPERSEDED")]
     print(f"{len(status)} seeds, {len(missed)} not caught: {missed}")
     if os.path.isdir("/var/tmp/seedmatrix") and not os.listdir("/var/tmp/seedmatrix"):
         shutil.rmtree("/var/tmp/seedmatrix", ignore_errors=True)
